@@ -434,6 +434,47 @@ func bin(op Op, a, b *Term) *Term {
 func isZero(t *Term) bool { return t.IsConst() && t.Val.Sign() == 0 }
 func isOnes(t *Term) bool { return t.IsConst() && t.S.K == SBV && t.Val.Cmp(mask(t.S.W)) == 0 }
 
+// linear form of a sum: the non-constant summands (atoms, with multiplicity) and the constant.
+// canonical linear sums are switched on per target (lemma directive "simplify: linear"): they make
+// offsets reached by different groupings the same term, but change the shape of every sum, which the
+// slow quantified obligations of other targets are sensitive to
+var noLinear = true
+var noUlt0 = os.Getenv("GOVC_NO_ULT0") != ""
+
+func linearize(t *Term, atoms *[]*Term, c *big.Int, depth int) {
+	if t.IsConst() {
+		c.Add(c, t.Val)
+		return
+	}
+	if t.Op == OBvAdd && depth < 24 {
+		linearize(t.Args[0], atoms, c, depth+1)
+		linearize(t.Args[1], atoms, c, depth+1)
+		return
+	}
+	*atoms = append(*atoms, t)
+}
+
+// sumOf rebuilds a sum in canonical shape: atoms in order of creation, the constant last.
+func sumOf(atoms []*Term, c *big.Int, w int) *Term {
+	sort.SliceStable(atoms, func(i, j int) bool { return atoms[i].id < atoms[j].id })
+	c = new(big.Int).And(c, mask(w))
+	var r *Term
+	for _, a := range atoms {
+		if r == nil {
+			r = a
+		} else {
+			r = bin(OBvAdd, r, a)
+		}
+	}
+	if r == nil {
+		return BVC(c, w)
+	}
+	if c.Sign() != 0 {
+		r = bin(OBvAdd, r, BVC(c, w))
+	}
+	return r
+}
+
 func BvAdd(a, b *Term) *Term {
 	w := a.S.W
 	if a.IsConst() && b.IsConst() {
@@ -448,14 +489,22 @@ func BvAdd(a, b *Term) *Term {
 	if a.IsConst() {
 		a, b = b, a
 	}
-	// (x + c1) + c2
-	if b.IsConst() && a.Op == OBvAdd && a.Args[1].IsConst() {
-		return BvAdd(a.Args[0], BVC(new(big.Int).Add(a.Args[1].Val, b.Val), w))
-	}
 	if b.IsConst() && a.Op == OBvSub && a.Args[1].IsConst() {
 		return BvAdd(a.Args[0], BVC(new(big.Int).Sub(b.Val, a.Args[1].Val), w))
 	}
-	return bin(OBvAdd, a, b)
+	if noLinear {
+		if b.IsConst() && a.Op == OBvAdd && a.Args[1].IsConst() {
+			return BvAdd(a.Args[0], BVC(new(big.Int).Add(a.Args[1].Val, b.Val), w))
+		}
+		return bin(OBvAdd, a, b)
+	}
+	// sums are kept in a canonical linear form, so that the same total reached by different
+	// groupings is the same term
+	var atoms []*Term
+	c := new(big.Int)
+	linearize(a, &atoms, c, 0)
+	linearize(b, &atoms, c, 0)
+	return sumOf(atoms, c, w)
 }
 
 func BvSub(a, b *Term) *Term {
@@ -472,13 +521,29 @@ func BvSub(a, b *Term) *Term {
 	if b.IsConst() {
 		return BvAdd(a, BVC(new(big.Int).Neg(b.Val), w))
 	}
-	// (x + y) - x
-	if a.Op == OBvAdd {
-		if a.Args[0] == b {
-			return a.Args[1]
+	// sums: cancel the summands of b among those of a
+	if a.Op == OBvAdd || b.Op == OBvAdd {
+		var aa, ba []*Term
+		ca, cb := new(big.Int), new(big.Int)
+		linearize(a, &aa, ca, 0)
+		linearize(b, &ba, cb, 0)
+		all := true
+		for _, x := range ba {
+			found := false
+			for i, y := range aa {
+				if y == x {
+					aa = append(aa[:i:i], aa[i+1:]...)
+					found = true
+					break
+				}
+			}
+			if !found {
+				all = false
+				break
+			}
 		}
-		if a.Args[1] == b {
-			return a.Args[0]
+		if all {
+			return sumOf(aa, new(big.Int).Sub(ca, cb), w)
 		}
 	}
 	return bin(OBvSub, a, b)
@@ -943,6 +1008,61 @@ func foldKnown(t *Term) *Term {
 	return t
 }
 
+// urange: unsigned bounds [lo, hi] of a bit-vector term when they can be read off its shape
+// (constants, zero extensions, masks, sums that cannot wrap).  ok=false: nothing known.
+func urange(t *Term) (lo, hi *big.Int, ok bool) {
+	if t.S.K != SBV {
+		return nil, nil, false
+	}
+	switch t.Op {
+	case OConst:
+		return t.Val, t.Val, true
+	case OBvAdd:
+		al, ah, ok1 := urange(t.Args[0])
+		bl, bh, ok2 := urange(t.Args[1])
+		if ok1 && ok2 {
+			h := new(big.Int).Add(ah, bh)
+			if h.Cmp(mask(t.S.W)) <= 0 {
+				return new(big.Int).Add(al, bl), h, true
+			}
+		}
+		return nil, nil, false
+	}
+	if u := ubound(t); u != nil {
+		return big.NewInt(0), u, true
+	}
+	return nil, nil, false
+}
+
+// signedByRange decides a signed comparison when both sides are known to be small non-negative numbers.
+func signedByRange(a, b *Term, strict bool) *Term {
+	al, ah, ok1 := urange(a)
+	bl, bh, ok2 := urange(b)
+	if !ok1 || !ok2 {
+		return nil
+	}
+	half := new(big.Int).Lsh(big.NewInt(1), uint(a.S.W-1))
+	if ah.Cmp(half) >= 0 || bh.Cmp(half) >= 0 {
+		return nil
+	}
+	if strict {
+		if ah.Cmp(bl) < 0 {
+			return True()
+		}
+		if al.Cmp(bh) >= 0 {
+			return False()
+		}
+	} else {
+		if ah.Cmp(bl) <= 0 {
+			return True()
+		}
+		if al.Cmp(bh) > 0 {
+			return False()
+		}
+	}
+	return nil
+}
+
 func ubound(t *Term) *big.Int {
 	switch t.Op {
 	case OConst:
@@ -988,6 +1108,10 @@ func BvUlt(a, b *Term) *Term {
 	}
 	if a == b || isZero(b) {
 		return False()
+	}
+	if isZero(a) && !noUlt0 {
+		// 0 <u x  is  x != 0 (one shape for both spellings, so that recorded facts apply)
+		return Not(Eq(b, a))
 	}
 	if b.IsConst() {
 		if u := ubound(a); u != nil && u.Cmp(b.Val) < 0 {
@@ -1043,6 +1167,9 @@ func BvSlt(a, b *Term) *Term {
 	}
 	w := a.S.W
 	half := new(big.Int).Lsh(big.NewInt(1), uint(w-1))
+	if r := signedByRange(a, b, true); r != nil {
+		return r
+	}
 	// both provably non-negative -> unsigned compare
 	ua, ub := ubound(a), ubound(b)
 	if ua != nil && ub != nil && ua.Cmp(half) < 0 && ub.Cmp(half) < 0 {
